@@ -16,7 +16,9 @@ package commitlog
 // verdict is taken by TLC (Trace_Cleaner.tla).
 
 import (
+	"context"
 	"fmt"
+	"io"
 	"os"
 	"testing"
 	"time"
@@ -106,9 +108,14 @@ type vcRun struct {
 	now  int64
 	l    *commitLog
 	pend *vcPending
+	// a clean failed (injected deletion error) and was not retried successfully yet:
+	// the segment list still names closed segments, as inside the window of a clean
+	dirty *vcPending
 	// persistent readers (kept across cleans)
 	readers map[string]*Reader
 	rd      map[string]vcRd
+	// persistent reverse readers (kept across cleans, also created inside the window)
+	revs map[string]*ReverseReader
 }
 
 // the mocked clock read by computeTTL and the gate used by the run in progress
@@ -133,6 +140,7 @@ func (r *vcRun) open() {
 	}
 	r.l = cl.(*commitLog)
 	r.readers = map[string]*Reader{}
+	r.revs = map[string]*ReverseReader{}
 	r.rd = map[string]vcRd{"r1": {}, "r2": {}}
 }
 
@@ -142,16 +150,20 @@ func (r *vcRun) open() {
 // segment of the snapshot is what was observed just before the snapshot and
 // only the rest is read now.
 func (r *vcRun) scanLog() []vRec {
-	if r.pend == nil {
+	p := r.pend
+	if p == nil {
+		p = r.dirty
+	}
+	if p == nil {
 		return vScanAll(r.l)
 	}
 	out := []vRec{}
-	for _, x := range r.pend.preLog {
-		if x.Off < r.pend.base {
+	for _, x := range p.preLog {
+		if x.Off < p.base {
 			out = append(out, x)
 		}
 	}
-	res := vReadFrom(r.l, r.pend.base, false)
+	res := vReadFrom(r.l, p.base, false)
 	return append(out, res.Recs...)
 }
 
@@ -364,7 +376,38 @@ func (r *vcRun) step(id int, step map[string]interface{}) vcEvent {
 				return
 			}
 			obs.Err = vcErrClass(r.l.Clean())
-			obs.Ret = r.bounds()
+			if obs.Err == "" {
+				r.dirty = nil
+				obs.Ret = r.bounds()
+			}
+		case "CleanFail":
+			// Clean() with a transient I/O error: the file handle of the k-th segment is
+			// closed behind its back, so closing (hence deleting) that segment fails once;
+			// the handle is repaired as soon as Clean() has returned
+			k := vInt(step, "k")
+			args["k"] = k
+			segs := r.l.Segments()
+			if r.pend != nil || r.dirty != nil || k < 1 || int(k) >= len(segs) {
+				obs.A, a = "Skip", "Skip"
+				return
+			}
+			before := &vcPending{preLog: vScanAll(r.l), base: segs[len(segs)-1].BaseOffset}
+			seg := segs[k-1]
+			seg.log.Close()
+			err := r.l.Clean()
+			seg.Lock()
+			if f, e := os.OpenFile(seg.logPath(), os.O_RDWR|os.O_APPEND, 0644); e == nil {
+				seg.log, seg.writer, seg.reader = f, f, f
+			}
+			seg.Unlock()
+			if err == nil {
+				// the segment was not doomed: an ordinary clean
+				obs.A, a = "Clean", "Clean"
+				obs.Ret = r.bounds()
+			} else {
+				obs.Err = "delete-failed"
+				r.dirty = before
+			}
 		case "CleanBegin":
 			if r.pend != nil {
 				obs.A, a = "Skip", "Skip"
@@ -425,6 +468,45 @@ func (r *vcRun) step(id int, step map[string]interface{}) vcEvent {
 				st.Parked = false
 				r.rd[name] = st
 			}
+		case "NewRev":
+			name, s, c := vStr(step, "r"), vInt(step, "s"), vBool(step, "c")
+			args["r"], args["s"], args["c"] = name, s, c
+			rdr, err := r.l.NewReverseReader(s, !c)
+			if err != nil {
+				obs.Err = "reader"
+				delete(r.revs, name)
+			} else {
+				r.revs[name] = rdr
+			}
+		case "RevRead":
+			name, all := vStr(step, "r"), vBool(step, "all")
+			args["r"], args["all"] = name, all
+			rdr, ok := r.revs[name]
+			if !ok {
+				obs.A, a = "Skip", "Skip"
+				return
+			}
+			fps = []string{}
+			headers := make([]byte, msgSetHeaderLen)
+			for i := 0; i < vMaxRead; i++ {
+				m, off, ts, ep, err := rdr.ReadMessage(context.Background(), headers)
+				if err != nil {
+					// the reader is finished: end of the log or an explicit error
+					delete(r.revs, name)
+					switch err {
+					case io.EOF:
+					case ErrSegmentReplaced, ErrSegmentClosed:
+						obs.Err = "dead"
+					default:
+						obs.Err = "other:" + err.Error()
+					}
+					break
+				}
+				fps = append(fps, vDecode(m, off, ts, ep).Fp)
+				if !all {
+					break
+				}
+			}
 		case "Reopen":
 			if r.pend != nil {
 				obs.A, a = "Skip", "Skip"
@@ -448,15 +530,15 @@ func (r *vcRun) step(id int, step map[string]interface{}) vcEvent {
 		}
 		args["recs"] = recs
 	}
-	if a == "Drain" {
+	if a == "Drain" || a == "RevRead" {
 		if fps == nil {
 			fps = []string{}
 		}
 		obs.Ret = fps
 	}
-	ev := vcEvent{T: id, A: a, Args: args, St: st, Obs: obs, Win: r.pend != nil,
+	ev := vcEvent{T: id, A: a, Args: args, St: st, Obs: obs, Win: r.pend != nil || r.dirty != nil,
 		Rb: []vcRead{}, Rv: []vcRead{}, Tl: []vcTsLookup{}}
-	if r.pend == nil {
+	if r.pend == nil && r.dirty == nil {
 		ev.Rb, ev.Rv, ev.Tl = r.readBacks(st)
 	}
 	return ev
